@@ -28,7 +28,7 @@ def registry_case(draw):
   threads = []
   for _ in range(nthreads):
     n = draw(st.integers(1, 4))
-    threads.append([[draw(st.sampled_from(["append", "attr", "event_name"])),
+    threads.append([[draw(st.sampled_from(["append", "attr", "event_name", "event_number", "name_for"])),
                      draw(st.one_of(st.sampled_from(shared), ident))] for _ in range(n)])
   fine = st.lists(st.tuples(st.integers(0, 5), st.integers(1, 15)), max_size=120)
   return {"mode": mode, "threads": threads, "tag": tag, "schedule": [list(x) for x in draw(fine)]}
@@ -64,8 +64,9 @@ class C25(Prop):
           "registry object), Event(name), Event(number), name_for_signal(number), "
           "is_inner_signal(name or number); names are identifiers, arbitrary text (including the "
           "empty string) and the ten built-in names; model seeded from the live registry. "
-          "Concurrent: 2-3 threads x 1-4 registrations (append / attribute access / Event(name)) "
-          "over shared and private fresh names under the deterministic scheduler with pre-emption "
+          "Concurrent: 2-3 threads x 1-4 operations (append / attribute access / Event(name) "
+          "registrations over shared and private fresh names, and Event(number) / name_for_signal "
+          "uses of existing signals) under the deterministic scheduler with pre-emption "
           "at every BYTECODE of miros/event.py (run lengths 1-15). Oracle after every operation / "
           "at the end: names and numbers are one-to-one, numbers are positive and never change "
           "once seen (every number a thread observed is the final one), name_for_signal inverts "
@@ -204,6 +205,15 @@ class C25(Prop):
             if name in dir(type(signals)) or name in vars(signals):
               continue
             observed.append((name, getattr(signals, name)))
+          elif k == "event_number":
+            # USING signals while others register: an event made from a number that is
+            # already bound (a built-in) must report that number's name
+            e = Event(signal=signals.INIT_SIGNAL)
+            if e.signal_name != "INIT_SIGNAL" or e.signal != signals.INIT_SIGNAL:
+              observed.append(("!name", ("INIT_SIGNAL", e.signal_name)))
+          elif k == "name_for":
+            if signals.name_for_signal(signals.EXIT_SIGNAL) != "EXIT_SIGNAL":
+              observed.append(("!name", ("EXIT_SIGNAL", signals.name_for_signal(signals.EXIT_SIGNAL))))
           else:
             e = Event(signal=name)
             observed.append((name, e.signal))
